@@ -228,6 +228,7 @@ func (w *world) invariants(promptConsumer bool) {
 	sigs := append([]sig{}, w.sigs...)
 	endAt := w.endAt
 	w.mu.Unlock()
+	now := time.Now()
 	sort.Slice(adds, func(i, j int) bool { return adds[i].call < adds[j].call })
 	// (1) signals never exceed Adds, at every prefix of the logical clock
 	for k, s := range sigs {
@@ -260,6 +261,9 @@ func (w *world) invariants(promptConsumer bool) {
 		if !endAt.IsZero() && !deadline.Before(endAt) {
 			continue // closed / cancelled before the deadline: nothing more is owed
 		}
+		if !deadline.Before(now) {
+			continue // the deadline has not passed yet (a timer firing at this very instant may still be in flight)
+		}
 		if !promptConsumer {
 			continue
 		}
@@ -278,7 +282,7 @@ func (w *world) invariants(promptConsumer bool) {
 	// (3) the last Add is followed by a signal (logical clock), unless closed before its deadline
 	last := adds[len(adds)-1]
 	lastDeadline := times[len(times)-1].Add(w.c.Max)
-	if endAt.IsZero() || lastDeadline.Before(endAt) {
+	if (endAt.IsZero() || lastDeadline.Before(endAt)) && lastDeadline.Before(now) {
 		ok := false
 		for _, s := range sigs {
 			if s.stamp > last.call {
